@@ -76,6 +76,85 @@ class WriteDumpHeader(Unit):
         return _replay_writers(seed)
 
 
+class RoundTrip(Unit):
+    """writer -> reader: the text returned by the REAL write_dump_header, followed by N well-formed atom lines (ids a bijection onto
+       1..N, any order, the columns the ATOMS line lists), is given to the REAL dump reader read_lammps (and to the column reader, whose
+       header parsing is a separate copy of the same statements): it is read back with timestep = ts, nparticle = N,
+       boxbounds[k] = round6(bounds[k]) (hence within 5e-7 of what was written), boxlength = their difference, in 2-D (dummy z line
+       consumed) and 3-D, and the reader's handle ends exactly behind the frame (so frames written one after the other are read in turn)."""
+    module = WR
+    qualname = "write_dump_header"
+    prop = "C19"
+    timeout = 20
+
+    @property
+    def name(self):
+        return "write_dump_header->reader"
+
+    def cases(self):
+        return [f"d={d}/addson={a}/{rd}" for d in (2, 3) for a in ("empty", "two") for rd in ("read_lammps", "read_lammps_vector")]
+
+    def setup(self, ctx, case):
+        d = int(case[2])
+        add = WriteDumpHeader.ADDS[case.split("/")[1].split("=")[1]]
+        ts, N = ctx.int("timestep"), ctx.int("nparticle")
+        ctx.assume(N >= 1)
+        bb = ctx.array("boxbounds", (d, 2), "float")
+        return [ts, N, bb], {"addson": add}, dict(d=d, ts=ts, N=N, bb=bb, add=add, reader=case.split("/")[2], r=ctx.int("r"))
+
+    def clause_names(self, case):
+        return ["written-text-has-nine-lines", "reader-returns-a-snapshot", "timestep-read-back", "nparticle-read-back", "bounds-read-back-rounded-to-6-decimals",
+                "bounds-within-5e-7-of-the-written-ones", "boxlength-read-back", "atom-lines-read-by-id", "handle-ends-behind-the-frame"]
+
+    def ensures(self, ctx, case, inp, out):
+        from pyvc.interp import FuncVal, load_module
+        names = self.clause_names(case)
+        d, ts, N, bb, r = inp["d"], inp["ts"], inp["N"], inp["bb"], inp["r"]
+        lines = header_lines(out.value)
+        ok = lines is not None and len(lines) == 10 and lines[9] == []
+        yield names[0], bool(ok)
+        if not ok:
+            return
+        f, sym = dump_frame_file(ctx, d, [], header=lines[:9], tag="_rt", N=N)     # as many atom lines as the header announces
+        m = load_module(LR)
+        interp = ctx.interp
+        interp.depth += 1
+        try:
+            if inp["reader"] == "read_lammps":
+                snap = interp.call_function(FuncVal(m, m.defs["read_lammps"]), [f, d], {})
+            else:
+                snap = interp.call_function(FuncVal(m, m.defs["read_lammps_vector"]), [f, d, ctx.pylist([3, 4])], {})
+        finally:
+            interp.depth -= 1
+        ok = _is_snapshot(snap)
+        yield names[1], bool(ok)
+        if not ok:
+            return
+        c = snap.content
+        eqN = []
+        yield names[2], sv.cmp("==", c["timestep"], ts)
+        yield names[3], sv.cmp("==", c["nparticle"], N), {"assume": eqN}
+        r6 = [[sv.round_dec(bb.get((k, e)), 6) for e in range(2)] for k in range(d)]
+        yield names[4], _arr_eq(c.get("boxbounds"), r6)
+        half = sv.to_frac(5e-7)
+        got = c.get("boxbounds")
+        near = [sv.and_(sv.cmp("<=", sv.sub(got.get((k, e)), bb.get((k, e))), half), sv.cmp("<=", sv.sub(bb.get((k, e)), got.get((k, e))), half))
+                for k in range(d) for e in range(2)] if isinstance(got, A.Arr) and tuple(got.shape) == (d, 2) else [False]
+        yield names[5], sv.and_(*near)
+        yield names[6], _arr_eq(c.get("boxlength"), [sv.sub(r6[k][1], r6[k][0]) for k in range(d)])
+        typ, pos = c["particle_type"], c["positions"]
+        inr = sv.and_(sv.cmp(">=", r, 0), sv.cmp("<", r, N))
+        line = sv.SV(sym["IDINV"](sv.znum(sv.add(r, 1))))
+        okt = isinstance(typ, A.Arr) and typ.ndim == 1 and isinstance(pos, A.Arr) and pos.ndim == 2
+        yield names[7], sv.and_(bool(okt), sv.implies(inr, sv.cmp("==", typ.get((r,)), sv.SV(sym["TYP"](line.t)))) if okt else False), {"assume": eqN}
+        from pyvc.state import cur
+        fcell = cur().heap[f.sid].data
+        yield names[8], sv.cmp("==", fcell["pos"], sv.add(sv.add(sym["b"], 9), N)), {"assume": eqN}
+
+    def replay(self, case, clause, model, seed):
+        return _replay_writers(seed)
+
+
 def header_lines(value):
     """token lines of a text value returned by a writer (None when it has no line structure)"""
     from pyvc.text import Text, text_lines
@@ -240,7 +319,7 @@ def _replay_writers(seed):
 # one frame of a LAMMPS dump as a symbolic file (orthogonal box: the auxiliary readers only read `lo hi` bounds lines)
 
 
-def dump_frame_file(ctx, d, words8, header=None, eof=False, tag=""):
+def dump_frame_file(ctx, d, words8, header=None, eof=False, tag="", N=None):
     """symbolic file positioned (line b) at a frame
          ITEM: TIMESTEP / ts / ITEM: NUMBER OF ATOMS / N / ITEM: BOX BOUNDS pp pp pp / 3 lines `lo hi` / ITEM: ATOMS <words8> /
          N atom lines `id type v_2 .. v_{ncols-1}` (ids a bijection onto 1..N, in any order; ncols >= 2 + d columns as the ATOMS line lists)
@@ -248,8 +327,9 @@ def dump_frame_file(ctx, d, words8, header=None, eof=False, tag=""):
     I, R = z3.IntSort(), z3.RealSort()
     b = ctx.int("b" + tag)
     ctx.assume(b >= 0)
-    N = ctx.int("N" + tag)
-    ctx.assume(N >= 1)
+    if N is None:
+        N = ctx.int("N" + tag)
+        ctx.assume(N >= 1)
     ncols = ctx.int("ncols" + tag)
     ctx.assume(sv.cmp(">=", ncols, 2 + d))
     TS = ctx.int("TS" + tag)
@@ -507,6 +587,195 @@ class ReadLammpsCentertype(Unit):
 
     def replay(self, case, clause, model, seed):
         return _replay_dump_readers("center", seed)
+
+
+# =====================================================================================================
+# the frame loops of the wrappers: written invariant (checked by init / step obligations), callee = its contract
+
+
+class FrameLoopWrapper(Unit):
+    """read_lammps_<kind>_wrapper(file_name, ndim, extra): the file holds F >= 0 frames, frame s starting at line FSTART(s)
+       (FSTART(s+1) = FSTART(s) + 9 + N_s, end of file at FSTART(F)).  The per-frame reader is used through its contract: called with
+       the handle at FSTART(s) it returns the snapshot of frame s and leaves the handle at FSTART(s+1); at FSTART(F) it returns None.
+       Loop invariant (written; init/step obligations): after k iterations  snapshots = [frame 0, .., frame k-1], nsnapshots = k, handle at
+       FSTART(k).  ensures: Snapshots(nsnapshots = F, snapshots = [frame 0 .. frame F-1]) in file order, every frame read by exactly one
+       call that received the wrapper's own ndim / type map / column list."""
+    module = LR
+    prop = "C19"
+    timeout = 20
+    callee = None
+    extra_kind = None      # 'dict' | 'list'
+
+    def cases(self):
+        return ["d=2", "d=3"]
+
+    def __init__(self):
+        self.summaries = {f"{LR}.{self.callee}": self._callee_contract}
+        lines = [n.lineno for n in self._while_nodes()]
+        self.loop_hints = {(f"{LR}.{self.qualname}", "while"): self._loop_rule}
+
+    def _while_nodes(self):
+        return []
+
+    # ---- ghost model of the file
+    def setup(self, ctx, case):
+        I = z3.IntSort()
+        d = int(case[2])
+        F = ctx.int("F")
+        ctx.assume(F >= 0)
+        B, NF = z3.Function("FSTART", I, I), z3.Function("NFRAME", I, I)
+        ctx.array_fact("NFRAME", lambda s: NF(s) >= 0)
+        ctx.array_fact("FSTART", lambda s: z3.And(B(s + 1) == B(s) + 9 + NF(s), B(0) == 0))
+        path = "dump.atom"
+        ctx.state.files[path] = (sv.SV(B(z3.IntVal(0))), None)           # no line model: only the callee's contract may read
+        if self.extra_kind == "dict":
+            extra = ctx.pydict({ctx.int("key_0"): ctx.int("val_0"), ctx.int("key_1"): ctx.int("val_1")})
+        else:
+            extra = ctx.pylist([ctx.int("col_0"), ctx.int("col_1")])
+        self._sym = dict(d=d, F=F, B=B, NF=NF, extra=extra, path=path, s=ctx.int("s"), calls=[])
+        return [path, d, extra], {}, self._sym
+
+    def frame_result(self, k):
+        """what the per-frame reader returns for the frame starting at FSTART(k) (its own unit proves what is in it)"""
+        from pyvc.interp import load_module, new_obj
+        cls = load_module(RU).get_class("SingleSnapshot")
+        fr = z3.Function("FRAME_FIELD", z3.IntSort(), z3.IntSort(), z3.IntSort())
+        names = [f[0] for f in cls.fields]
+        return new_obj(cls, {nm: sv.SV(fr(sv.znum(k), z3.IntVal(j))) for j, nm in enumerate(names)}, frozen=True)
+
+    def _callee_contract(self, interp, args, kwargs):
+        from pyvc.interp import Ref
+        from pyvc.state import Content, cur
+        sym = self._sym
+        st = cur()
+        ok = len(args) == 3 and not kwargs and isinstance(args[0], Ref) and args[0].kind == "file" and sv.is_conc(args[1]) and int(args[1]) == sym["d"] \
+            and isinstance(args[2], Ref) and args[2].sid == sym["extra"].sid
+        st.require(bool(ok), f"call:{self.callee}:pre:(open handle, the wrapper's ndim, the wrapper's type map / column list)")
+        if not ok:
+            raise sv.EngineError("callee called with unexpected arguments")
+        cell = st.heap[args[0].sid]
+        pos = z3.simplify(sv.znum(cell.data["pos"]))
+        if not (z3.is_app(pos) and pos.decl().name() == "FSTART"):
+            st.require(False, f"call:{self.callee}:pre:handle-at-a-frame-start")
+            raise sv.EngineError("handle is not at a frame start")
+        k = sv.wrap(pos.arg(0))
+        st.require(sv.and_(sv.cmp(">=", k, 0), sv.cmp("<=", k, sym["F"])), f"call:{self.callee}:pre:handle-at-a-frame-start")
+        more = interp.decide(sv.cmp("<", k, sym["F"]))
+        nd = dict(cell.data)
+        if more:
+            nd["pos"] = sv.SV(sym["B"](sv.znum(sv.add(k, 1))))
+            st.heap[args[0].sid] = Content("file", nd, cell.meta)
+            return self.frame_result(k)
+        nd["pos"] = sv.add(cell.data["pos"], 1)
+        st.heap[args[0].sid] = Content("file", nd, cell.meta)
+        return None
+
+    def _loop_rule(self, interp, s, frame, state):
+        """`while True: x = reader(f, ..); if not x: break; L.append(x); n += 1` with the written invariant of the class docstring"""
+        from pyvc.interp import Frame, Ref
+        from pyvc.loops import UnboundAfterLoop, _SideGoal, _assigned_names, _cell_eq_goals, _eq_goals, _side_infeasible
+        from pyvc.state import Content, use_state
+        sym = self._sym
+        F, B = sym["F"], sym["B"]
+        where = f"{frame.fname}:{s.lineno}"
+        if not (isinstance(s.test, __import__("ast").Constant) and s.test.value is True):
+            raise sv.EngineError("frame loop: not a `while True` loop")
+        lists = [n for n, v in frame.env.items() if isinstance(v, Ref) and v.kind == "list" and state.heap[v.sid].data == ()]
+        counters = [n for n, v in frame.env.items() if isinstance(v, int) and not isinstance(v, bool) and v == 0]
+        files = [n for n, v in frame.env.items() if isinstance(v, Ref) and v.kind == "file"]
+        if len(lists) != 1 or len(counters) != 1 or len(files) != 1:
+            raise sv.EngineError("frame loop: expected one empty list, one zero counter and one open file before the loop")
+        L, C, Fh = frame.env[lists[0]], counters[0], frame.env[files[0]]
+        unit = self
+
+        def item(p):
+            return unit.frame_result(p)
+
+        def put(st, env, k):
+            st.heap[L.sid] = Content("list", A.SeqVal(k, item), st.heap[L.sid].meta)
+            env[C] = k
+            st.heap[Fh.sid] = Content("file", dict(st.heap[Fh.sid].data, pos=sv.SV(B(sv.znum(k)))), st.heap[Fh.sid].meta)
+        # init: state(0) is the pre-state
+        for g in _eq_goals(state.heap[Fh.sid].data["pos"], sv.SV(B(z3.IntVal(0)))):
+            state.side.append(_SideGoal("loop-init", g, state.all_assumptions(), where))
+        # step: one iteration from state(k), 0 <= k <= F
+        k = sv.fresh_int("k")
+        st1 = state.fork()
+        st1.pc = list(state.pc) + [sv.zb(sv.cmp(">=", k, 0)), sv.zb(sv.cmp("<=", k, F))]
+        fr1 = Frame(frame.module, dict(frame.env), frame.fname)
+        put(st1, fr1.env, k)
+        outs = interp.exec_block_paths(s.body, fr1, st1)
+        n_exit = 0
+        for fr2, st2, out in outs:
+            assum = st2.all_assumptions()
+            if out[0] == "raise":
+                state.side.append(_side_infeasible(st2, f"loop-body-raises:{out[1]}", where))
+            elif out[0] == "break":
+                n_exit += 1
+                goals = _eq_goals(k, F) + _eq_goals(fr2.env.get(C), k)
+                c = st2.heap[L.sid].data
+                goals += [z3.BoolVal(isinstance(c, A.SeqVal) and c.fn is item)] + (_eq_goals(c.length, k) if isinstance(c, A.SeqVal) else [])
+                for g in goals:
+                    state.side.append(_SideGoal("loop-exit", g, assum, where))
+            elif out[0] in ("normal", "continue"):
+                ref = Content("list", A.SeqVal(A.simp(sv.add(k, 1)), item), st2.heap[L.sid].meta)
+                goals = [sv.zb(sv.cmp("<", k, F))] + _eq_goals(fr2.env.get(C), A.simp(sv.add(k, 1))) \
+                    + _eq_goals(st2.heap[Fh.sid].data["pos"], sv.SV(B(sv.znum(sv.add(k, 1))))) + _cell_eq_goals(st2.heap[L.sid], ref, (st2, st2))
+                for g in goals:
+                    state.side.append(_SideGoal("loop-step", g, assum, where))
+            else:
+                raise sv.EngineError("frame loop: the body returns")
+        if n_exit == 0:
+            raise sv.EngineError("frame loop: no exit path")
+        # post-state: invariant at the exit index F (termination: F - k decreases on every continuing path, which requires k < F)
+        with use_state(state):
+            put(state, frame.env, F)
+        for nme in _assigned_names(s.body):
+            if nme not in (C,):
+                frame.env[nme] = UnboundAfterLoop(nme, where)
+        return [(frame, state, ("normal",))]
+
+    def clause_names(self, case):
+        return ["is-Snapshots", "nsnapshots=number-of-frames", "one-snapshot-per-frame", "snapshot-s-is-the-reader's-result-for-frame-s"]
+
+    def ensures(self, ctx, case, inp, out):
+        names = self.clause_names(case)
+        F, s = inp["F"], inp["s"]
+        got = _snapshots_list(out.value, F)
+        yield names[0], got is not None
+        if got is None:
+            return
+        c, seq = got
+        yield names[1], sv.cmp("==", c["nsnapshots"], F)
+        yield names[2], sv.cmp("==", seq.length if isinstance(seq, A.SeqVal) else len(seq), F)
+        if not isinstance(seq, A.SeqVal):
+            yield names[3], False
+            return
+        from pyvc.loops import struct_eq_goals
+        from pyvc.state import cur
+        a, b2 = seq.fn(s), self.frame_result(s)
+        goals = struct_eq_goals(a, b2, cur(), cur())
+        yield names[3], sv.implies(sv.and_(sv.cmp(">=", s, 0), sv.cmp("<", s, F)), sv.wrap(z3.And(*goals)) if goals else True)
+
+    def raises(self, ctx, case, inp, out):
+        return None
+
+    def replay(self, case, clause, model, seed):
+        return _replay_dump_readers(self.replay_kind, seed)
+
+
+class CentertypeWrapper(FrameLoopWrapper):
+    qualname = "read_lammps_centertype_wrapper"
+    callee = "read_lammps_centertype"
+    extra_kind = "dict"
+    replay_kind = "center"
+
+
+class VectorWrapper(FrameLoopWrapper):
+    qualname = "read_lammps_vector_wrapper"
+    callee = "read_lammps_vector"
+    extra_kind = "list"
+    replay_kind = "vector"
 
 
 # =====================================================================================================
@@ -1240,7 +1509,7 @@ def _replay_dump_readers(which, seed):
         shutil.rmtree(tmp, ignore_errors=True)
 
 
-UNITS = [WriteDumpHeader(), WriteDataHeader(), ReadLammpsVector(), ReadLammpsCentertype(), ReadGsd(), ReadGsdDcd(), ReadAdditions(), ReadLammpsLog()]
+UNITS = [WriteDumpHeader(), WriteDataHeader(), RoundTrip(), ReadLammpsVector(), ReadLammpsCentertype(), ReadGsd(), ReadGsdDcd(), ReadAdditions(), ReadLammpsLog(), CentertypeWrapper(), VectorWrapper()]
 
 
 def lemmas():
